@@ -174,9 +174,47 @@ def bulkOp (n : Nat) (pend : List Nat) : String :=
   let oks := (outs.filter (· == "ok")).length
   "bulk ok=" ++ toString oks ++ " " ++ "|".intercalate (outs.filter (· != "ok"))
 
+/-- checksum of a line (kept in step with the harness's `lineSum`). -/
+def lineSum (acc : Nat) (s : String) : Nat :=
+  s.toList.foldl (fun a c => (a * 131 + c.toNat) % 1000003) ((acc * 7 + 1) % 1000003)
+
+def runLetters (s : St) (w : String) : Option (St × List String) :=
+  (w.toList.mapM charCalls).map fun ops =>
+    let (s', outs) := ops.foldl (fun (acc : St × List String) cs =>
+      let (s1, line) := doLetter acc.1 cs
+      (s1, line :: acc.2)) (s, [])
+    (s', outs.reverse)
+
+/-- `rep n pre unit post`: on a fresh Logger the word `pre`, then the word `unit` n times, then
+    `post` (seq letters; `-` = empty).  The n repetitions are printed as first round, last round
+    and a checksum over all their lines. -/
+def repOp (n : Nat) (pre unit post : String) : String :=
+  let fix (w : String) : String := if w = "-" then "" else w
+  match runLetters init (fix pre) with
+  | none => "bad-op"
+  | some (s1, o1) =>
+    let rec loop : Nat → St → Nat → List String → List String → Option (St × Nat × List String × List String)
+      | 0, s, sum, first, last => some (s, sum, first, last)
+      | k + 1, s, sum, first, _ =>
+        match runLetters s (fix unit) with
+        | none => none
+        | some (s', o) => loop k s' (o.foldl lineSum sum) (if first.isEmpty then o else first) o
+    match loop n s1 0 [] [] with
+    | none => "bad-op"
+    | some (s2, sum, first, last) =>
+      match runLetters s2 (fix post) with
+      | none => "bad-op"
+      | some (_, o3) =>
+        "rep " ++ "|".intercalate o1 ++ " ;n=" ++ toString n ++ " first=" ++ "|".intercalate first ++
+          " last=" ++ "|".intercalate last ++ " sum=" ++ toString sum ++ "; " ++ "|".intercalate o3
+
 def step (s : St) (toks : List String) : St × String :=
   match toks with
   | ["seq", w] => (s, seqOp w)
+  | ["rep", n, pre, unit, post] =>
+    match n.toNat? with
+    | some n => (s, repOp n pre unit post)
+    | none => (s, "bad-op")
   | ["bulk", n, pend] =>
     match n.toNat?, natList pend with
     | some n, some pend => (s, bulkOp n pend)
